@@ -297,7 +297,9 @@ func calcPositionIfNeededHevc(pkt *RtpPacket) {
 	// +-------------+-----------------+
 
 	outerNaluType := hevc.ParseNaluType(b[0])
-	if _, ok := hevc.NaluTypeMapping[outerNaluType]; ok {
+	// rfc7798 4.4.1: every nal unit type below 48 (AP) travels as a single nal unit packet, including the
+	// types hevc.NaluTypeMapping has no name for (EOS, EOB, filler data, reserved)
+	if outerNaluType < NaluTypeHevcAp {
 		pkt.positionType = PositionTypeSingle
 		return
 	}
